@@ -641,6 +641,17 @@ func ProvisionalName(expr *Expr, m *Model) string {
 }
 
 func appendSetName(ts *TokenSet, m *Model, out *strings.Builder) {
+	appendSetNameRec(ts, m, out, make(map[*TokenSet]bool))
+}
+
+func appendSetNameRec(ts *TokenSet, m *Model, out *strings.Builder, active map[*TokenSet]bool) {
+	if active[ts] {
+		// A named set that refers to itself.
+		out.WriteString("rec")
+		return
+	}
+	active[ts] = true
+	defer delete(active, ts)
 	switch ts.Kind {
 	case Any:
 		out.WriteString(m.Ref(ts.Symbol, nil /*args*/))
@@ -658,7 +669,7 @@ func appendSetName(ts *TokenSet, m *Model, out *strings.Builder) {
 		out.WriteString(m.Ref(ts.Symbol, nil /*args*/))
 	case Complement:
 		out.WriteString("not_")
-		appendSetName(ts.Sub[0], m, out)
+		appendSetNameRec(ts.Sub[0], m, out, active)
 	case Union, Intersection:
 		for i, sub := range ts.Sub {
 			if i > 0 {
@@ -668,7 +679,7 @@ func appendSetName(ts *TokenSet, m *Model, out *strings.Builder) {
 					out.WriteString("_")
 				}
 			}
-			appendSetName(sub, m, out)
+			appendSetNameRec(sub, m, out, active)
 		}
 	default:
 		log.Fatalf("cannot compute name for TokenSet Kind=%v", ts.Kind)
